@@ -69,12 +69,26 @@ Proof. exact burn_respects_switches_and_limits. Qed.
 Print Assumptions C11_burn_respects_switches_and_limits.
 
 (* Books match the bank, as an invariant over ALL histories of mints, burns and swaps by holders
-   (arbitrary amounts, arbitrary order), emergency switches, slash / raise hooks, weight slashes
-   and end blocks, for either variant: the supply equals the recorded amount and the module
-   account holds at least the recorded reserves plus surplus of every denomination. *)
+   (arbitrary amounts, arbitrary order), emergency switches, slash / raise hooks, weight slashes,
+   end blocks, surplus-withdrawal proposals over ANY list of basket ids (repeated, unknown, empty,
+   any order; receiver not the module account) and create-basket proposals, for every variant:
+   the supply equals the recorded amount and, per denomination, the module account holds at least
+   the recorded reserves plus surplus of ALL baskets together ([Books], [sibs_total]). *)
 Theorem C11_books_match_bank : forall v ops s, Forall op_ok ops -> Inv s -> Inv (run v s ops).
 Proof. exact books_match_bank. Qed.
 Print Assumptions C11_books_match_bank.
+
+(* the surplus withdrawal itself: the books survive ANY id list, and nothing but surplus records
+   (and balances) changes -- a repeated id finds its surplus already empty *)
+Theorem C11_withdraw_surplus_keeps_books : forall ids s target s', withdraw_ids s target ids = Ok s' -> target <> MODULE ->
+  Books s -> Books s' /\ same_but_surplus s s'.
+Proof. exact withdraw_ids_books. Qed.
+Print Assumptions C11_withdraw_surplus_keeps_books.
+Theorem C11_create_keeps_books : forall v s new s', create v s new = Ok s' -> Books s -> Books s' /\ s_bk s' = s_bk s /\ s_supply s' = s_supply s.
+Proof. exact create_books. Qed.
+Print Assumptions C11_create_keeps_books.
+Example C11_withdraw_ops_admitted : forall v, op_ok (OWithdraw [2; 1; 2; 1; 7] 3) /\ op_okE v (OWithdraw [] 1) /\ op_okE v (OCreate shell).
+Proof. intros v. repeat split; discriminate. Qed.
 
 (* The same invariant at full strength for the tree as it is (EditBasket keeps the stored amount,
    68b9c08): histories may also contain ANY edit proposals with a swap fee in [0,1] -- accepted or
@@ -102,10 +116,10 @@ Theorem C11_books_edit_refuted_before_68b9c08 :
   exists s new s', Books s /\ edit before_68b9c08 s new = Ok s' /\ s_supply s' <> b_amount (s_bk s').
 Proof. exact books_edit_refuted. Qed.
 Print Assumptions C11_books_edit_refuted_before_68b9c08.
-(* and REFUTED for the pool-upsert hook, which replaces the record of basket 1 *)
-Theorem C11_books_upsert_hook_refuted : exists s, Books s /\ ~ Books (apply current s (OUpsertHook true)).
+(* and it was REFUTED for the pool-upsert hook before 853c45f, which replaced the record of basket 1 *)
+Theorem C11_books_upsert_hook_refuted_before_853c45f : exists s, Books s /\ ~ Books (apply before_853c45f s (OUpsertHook true)).
 Proof. exact books_upsert_hook_refuted. Qed.
-Print Assumptions C11_books_upsert_hook_refuted.
+Print Assumptions C11_books_upsert_hook_refuted_before_853c45f.
 
 (* A swap pays out at most the value paid in less fees: for every pair, the amount taken out of
    the reserves, valued at the out weight, is at most the amount paid in less the swap fee valued
